@@ -21,11 +21,6 @@ Import-free, total, computable.
 namespace Navis.Flow
 open Navis.Forest
 
-def isRootId (t : Table) (i : Int) : Bool :=
-  match find? t i with
-  | some n => decide (n.parent < 0)
-  | none => false
-
 /-- Leafs whose twig is shorter than `k` nodes, as the accelerator sees them. -/
 def shortTwigsFc (t : Table) (k : Nat) : List Int :=
   (smallSegments t).filterMap fun s =>
